@@ -29,7 +29,8 @@ def handleBodiesSer (op : String) (args : List String) : Option String :=
     match decComp t with
     | some c =>
       some (pyRes (fun l => String.intercalate "|" (l.map (fun x => encItem (ivItem x))))
-        (Gen.BodiesSer.Component_property_items escapeChar sortedKeysP keysP getitemP c (recur == "1") (srt == "1")))
+        (Gen.BodiesSer.Component_property_items (name_to_ical := escapeChar) (sorted_keys := sortedKeysP) (keys := keysP) (getitem := getitemP)
+          c (recur == "1") (srt == "1")))
     | none => some "bad-args"
   | _, _ => none
 
